@@ -5,6 +5,7 @@
 From Coq Require Import List Arith Bool Lia QArith Reals Lra ZArith.
 From NV Require Import Scalar.Ops Model.Common Model.Basis Model.Geom2D Model.Voxel
   Proofs.Boehm Proofs.BasisR Proofs.Geom2DR Proofs.VoxelR.
+From NV Require Import Proofs.HullContains.
 Import ListNotations.
 Open Scope R_scope.
 
@@ -171,3 +172,20 @@ Proof. vm_compute. split; reflexivity. Qed.
 Example C20_example_window :      (* cubic, one interior knot: t = 3/4 lies in span 4, window = points 1..4 *)
   find_ctrlpts_curve Qops 3 [0; 0; 0; 0; 1 # 2; 1; 1; 1; 1]%Q [[0]; [1]; [2]; [3]; [4]]%Q (3 # 4)%Q = [[1]; [2]; [3]; [4]]%Q.
 Proof. vm_compute. reflexivity. Qed.
+
+(* ====================== round 2 (Proofs/HullContains.v): the hull contains every input point ====================== *)
+(* [G] every input point lies inside or on the returned hull: on or left of every directed edge of the counter-clockwise
+   polygon (all point lists with at least the two coordinates the code reads; exact real arithmetic) *)
+Theorem C20_hull_contains_all_points : forall (points : list (list R)) (p : list R),
+  Forall (fun q => (2 <= length q)%nat) points -> In p points ->
+  let h := convex_hull Rops points in
+  (3 <= length h)%nat ->
+  forall i, (i < length h)%nat -> (0 <= is_left Rops (List.nth i h []) (List.nth ((i + 1) mod length h) h []) p)%R.
+Proof. exact hull_contains_all_points_full_2d. Qed.
+Print Assumptions C20_hull_contains_all_points.
+
+(* the Definition C20_hull_contains_all_points_full quantifies over degenerate points with fewer than two coordinates (on
+   which geomdl raises IndexError): without the dimension hypothesis it is false in the model *)
+Theorem C20_hull_contains_all_points_full_refuted : ~ C20_hull_contains_all_points_full.
+Proof. exact hull_contains_without_dimension_refuted. Qed.
+Print Assumptions C20_hull_contains_all_points_full_refuted.
